@@ -1060,6 +1060,25 @@ func probe() {
 		"simple packet block declaring a 40 MiB packet length")
 	run("dsb-secrets", cat(bSHB(le, nil), bBlock(le, 10, cat(le.u32(0x544c534b), le.u32(big), []byte{1, 2, 3, 4})), bIDB(le, 1, 0, nil)), false, false,
 		"decryption secrets block declaring a 40 MiB secrets length")
+	// a lying length followed by MORE than ngMaxPrealloc real bytes: the buffer may grow only as the data arrives
+	// (doubling), never straight to the declared 160 MiB
+	grow := func(name string, zero bool) {
+		const declared = 160 << 20
+		real := make([]byte, 3<<19) // 1.5 MiB of packet bytes really present
+		for i := range real {
+			real[i] = byte(i)
+		}
+		// the block's own total length must lie too (the capture length is validated against it), and the file ends
+		// inside the packet data
+		file := cat(bSHB(le, nil), bIDB(le, 1, 0, nil), le.u32(6), le.u32(declared+32), le.u32(0), le.ts(0), le.u32(declared), le.u32(declared), real)
+		o := timed(file, zero, pcapgo.NgReaderOptions{}, plain)
+		if o.alloc > 8*uint64(len(file))+allocSlack {
+			lib.Finding("C15", "pcapng:alloc:"+name, fmt.Sprintf("enhanced packet block declaring a 160 MiB capture length followed by 1.5 MiB of data: %d bytes allocated while reading a %d byte file", o.alloc, len(file)))
+		}
+		lib.Stat("probe")
+	}
+	grow("epb-caplen-grow", false)
+	grow("epb-caplen-grow-zerocopy", true)
 	// allowed by the property (declared snap length), but it makes huge declared snap lengths expensive to execute
 	run("zerocopy-snaplen", cat(bSHB(le, nil), bIDB(le, 1, big, nil), bEPB(le, 0, 0, 4, 4, []byte{1, 2, 3, 4}, nil)), true, true,
 		"interface declaring a 40 MiB snap length (ZeroCopyReadPacketData)")
